@@ -39,6 +39,7 @@ type clientSpec struct {
 	Extra   []string    `json:"extra"` // extra raw header lines "K: V"
 	Base64  string      `json:"b64"`   // connect_get: "", "1", "0", "bad"
 	NoFlush bool        `json:"noflush"`
+	Rej     string      `json:"rej"` // rejection class the generator aimed at ("" = none)
 }
 
 type endSpec struct {
@@ -71,11 +72,12 @@ type handlerSpec struct {
 type scenario struct {
 	SID    string            `json:"sid"`
 	Fam    string            `json:"fam"`
+	Seed   int64             `json:"seed,omitempty"` // concretisation seed (set on replay; otherwise derived from the run seed)
 	Cfg    cfgSpec           `json:"cfg"`
 	Cl     clientSpec        `json:"cl"`
 	Hd     handlerSpec       `json:"hd"`
-	Msgs   map[string]string `json:"msgs"` // id -> kind class ("" = harness picks by seed)
-	Params map[string]any    `json:"params"`
+	Msgs   map[string]string `json:"msgs,omitempty"` // id -> kind class ("" = harness picks by seed)
+	Params map[string]any    `json:"params,omitempty"`
 }
 
 // ---------------------------------------------------------------- observations
@@ -139,6 +141,7 @@ type clientObs struct {
 	Rest       int        `json:"rest"`
 	End        endObs     `json:"end"`
 	Ends       int        `json:"ends"`  // number of terminal dispositions signalled
+	EndDup     string     `json:"enddup"` // gRPC: status repeated in headers and trailers: same | diff
 	After      int        `json:"after"` // bytes after the terminal disposition
 	Hdrs       []string   `json:"hdrs"`
 	Lost       []string   `json:"lost"`
